@@ -551,6 +551,12 @@ def locate(fn, loc):
         if len(hits) <= loc[1]:
             raise Fail("%s: no `for … in range(<expr>)` loop #%d" % (fn.name, loc[1]), fn)
         return hits[loc[1]].iter.args[0]
+    if kind == "for_iter":
+        # ("for_iter", nth): the iterable of the nth (source order) `for` loop of the function (for shape pins)
+        hits = sorted((n for n in ast.walk(fn) if isinstance(n, ast.For)), key=lambda n: (n.lineno, n.col_offset))
+        if len(hits) <= loc[1]:
+            raise Fail("%s: no `for` loop #%d" % (fn.name, loc[1]), fn)
+        return hits[loc[1]].iter
     if kind == "fresh_dict":
         # pin: `target` is assigned a fresh empty dict literal (per-object state, not shared between objects)
         v = assign_value(fn, loc[1], 0)
